@@ -463,7 +463,7 @@ func genOutScript(r *sm64, w *watch, watched bool) []byte {
 func TestBloomTx(t *testing.T) {
 	selfCheck(t)
 	rapid.Check(t, func(t *rapid.T) {
-		p := genBloomPair(t, recBloomTx, false)
+		p := genBloomPair(t, recBloomTx, !ev.IsKnown("C20", sigBloomK0))
 		if len(p.m.Bits) == 0 {
 			// zero-size fields are outside the property; keep the case cheap
 			recBloomTx.Case(false, "", 0, nil)
